@@ -12,7 +12,7 @@ META = {
                    "captured encoder type (revealed impl Values), of the re-parsing iterator and of the encoder must agree; "
                    "encoder/decoder pivot agreement for X.509 times; field coverage between decoders' struct literals and "
                    "encode_ref; re-decode sites use the capture's mode; the ROA address parser accepts exactly prefix length ≤ "
-                   "[maxLength ≤] family maximum, decided on every ordering of the three numbers.",
+                   "[maxLength ≤] family maximum, decided on every ordering of the three numbers; a built signed object's accessor fields (content type, message digest, signing time) are the very values put into the signed attributes, and what is signed is their encoding.",
     "not_decided": ["byte-for-byte encode(decode(x)) == x", "acceptance of built objects by the validator for all inputs",
                     "accessor equality between built and decoded twins (value equality)"],
     "trusted_base": ["bcder encode::sequence / Constructed write exactly one header around their content"],
